@@ -197,3 +197,16 @@ def _register_extension(
     if ext_type in EXT_MAP:
         raise DuplicateRegistrationError("Extension", ext_type)
     EXT_MAP[ext_type] = new_extension
+
+
+def _unregister_extension(ext_type, version=version.DEFAULT_VERSION):
+    """Undo the registration of a custom extension.  For registrations made
+    of several parts (a new object type plus its extension definition), when
+    a later part is refused.
+
+    Args:
+        ext_type (str): The extension type which was registered.
+        version (str): Which STIX2 version it was registered for.
+
+    """
+    registry.STIX2_OBJ_MAPS[version]['extensions'].pop(ext_type, None)
